@@ -326,14 +326,21 @@ func c19Inbound(x *c19World, spec c19Spec, res *core.CaseResult, verbose bool) {
 		case "malformed":
 			memo = []string{"{", `{"@type":"/nope"}`, "hello", `{"@type":"/fx.ibc.applications.transfer.v1.IbcCallEvmPacket","to":"zz","data":"00"}`}[rng.IntN(4)]
 		}
+		// the sender field is whatever the remote chain wrote: now and then the hex or bech32 form of a local account
+		sender := x.remote.Bech32()
+		senderKind := "remote"
+		if rng.IntN(4) == 0 {
+			v := x.users[rng.IntN(len(x.users))]
+			sender, senderKind = []string{v.Hex().Hex(), strings.ToLower(v.Hex().Hex()), v.Bech32()}[rng.IntN(3)], "local-account-string"
+		}
 		ctx := c.Branch()
 		before := x.snap(ctx, x.recorder)
 		var pkt channeltypes.Packet
-		hostile := amtKind == "non-numeric" || amtKind == "negative" || recvKind == "garbage" || denom == fxReturn
+		hostile := amtKind == "non-numeric" || amtKind == "negative" || recvKind == "garbage" || denom == fxReturn || senderKind != "remote"
 		timeout := c.Time.Add(time.Hour)
 		if hostile {
 			var err error
-			pkt, err = x.rawSend(ctx, a, transfertypes.NewFungibleTokenPacketData(denom, amount, x.remote.Bech32(), receiver, memo), timeout)
+			pkt, err = x.rawSend(ctx, a, transfertypes.NewFungibleTokenPacketData(denom, amount, sender, receiver, memo), timeout)
 			if err != nil {
 				continue
 			}
@@ -356,7 +363,7 @@ func c19Inbound(x *c19World, spec c19Spec, res *core.CaseResult, verbose bool) {
 		ack, rr := x.loop.Recv(ctx, pkt)
 		res.Count("inbound_packets", 1)
 		after := x.snap(ctx, x.recorder)
-		desc := fmt.Sprintf("denom=%s amount=%s(%s) receiver=%s(%s) memo=%s", denom, amount, amtKind, recvKind, short(receiver), memoKind)
+		desc := fmt.Sprintf("denom=%s amount=%s(%s) receiver=%s(%s) memo=%s sender=%s(%s)", denom, amount, amtKind, recvKind, short(receiver), memoKind, senderKind, short(sender))
 		if !rr.OK() {
 			// the relay transaction itself failed: nothing may have changed
 			res.Count("recv_tx_failed", 1)
@@ -427,7 +434,7 @@ func c19Inbound(x *c19World, spec c19Spec, res *core.CaseResult, verbose bool) {
 			caller := common.BytesToAddress(c.App.EvmKeeper.GetState(ctx, x.recorder, common.Hash{}).Bytes())
 			cands := map[common.Address]string{}
 			for _, ch := range []string{pkt.SourceChannel, pkt.DestinationChannel} {
-				cands[common.BytesToAddress(address.Hash(fmt.Sprintf("%s/%s", transfertypes.PortID, ch), []byte(x.remote.Bech32())))] = ch
+				cands[common.BytesToAddress(address.Hash(fmt.Sprintf("%s/%s", transfertypes.PortID, ch), []byte(sender)))] = ch
 			}
 			if _, ok := cands[caller]; !ok {
 				res.Violate("C19/memo-call-sender", "%s: the memo call ran with caller %s, which is not hash(port/channel, sender) for the packet's channels", desc, caller.Hex())
@@ -754,6 +761,17 @@ func c18IBC(spec c18Spec, res *core.CaseResult, verbose bool) {
 	c := x.c
 	a := x.loop.Pairs[0][0]
 	u := x.users[0]
+	// the derived memo-call sender must exist as an account, or the call fails before the EVM runs (O7)
+	for _, ch := range []string{a, x.loop.Counterparty(a)} {
+		fix.Fund(c, common.BytesToAddress(address.Hash(fmt.Sprintf("%s/%s", transfertypes.PortID, ch), []byte(x.remote.Bech32()))).Bytes(), sdk.NewCoin(fxtypes.DefaultDenom, sdkmath.NewInt(1)))
+	}
+	// FX that left over the counterparty channel earlier (escrow for "FX coming home")
+	if _, r := x.loop.Send(c.Ctx, x.users[3], x.loop.Counterparty(a), sdk.NewCoin(fxtypes.DefaultDenom, sdkmath.NewInt(5_000_000)), x.remote.Bech32(), "", c.Time.Add(100*time.Hour)); !r.OK() {
+		res.Inconclusive = "fx outbound: " + r.ErrString()
+		return
+	}
+	invalidOp, _ := c.Deploy(c.Users[0], []byte{0x60, 0x07, 0x60, 0x00, 0x55, 0xfe})           // SSTORE then INVALID
+	badJump, _ := c.Deploy(c.Users[0], []byte{0x60, 0x07, 0x60, 0x00, 0x55, 0x60, 0x03, 0x56}) // SSTORE then JUMP to a non-JUMPDEST
 	looper, _ := c.Deploy(c.Users[0], append([]byte{0x60, 0x07, 0x60, 0x00, 0x55}, 0x5b, 0x60, 0x05, 0x56))
 	lateRev, _ := c.Deploy(c.Users[0], []byte{0x60, 0x07, 0x60, 0x00, 0x55, 0x60, 0x00, 0x60, 0x00, 0xfd})
 	type tc struct {
@@ -765,6 +783,9 @@ func c18IBC(spec c18Spec, res *core.CaseResult, verbose bool) {
 	cases := []tc{
 		{"memo-call-reverts-after-writes", x.memoCall(lateRev, []byte{1}, nil), nil, "atom"},
 		{"memo-call-out-of-gas", x.memoCall(looper, []byte{1}, nil), nil, "atom"},
+		{"memo-call-invalid-opcode", x.memoCall(invalidOp, []byte{1}, nil), nil, "atom"},
+		{"memo-call-bad-jump", x.memoCall(badJump, []byte{1}, nil), nil, "atom"},
+		{"memo-call-out-of-gas-fx-returning", x.memoCall(looper, []byte{1}, nil), nil, "fx-return"},
 		{"memo-call-to-reverter", x.memoCall(x.reverter, nil, nil), nil, "atom"},
 		{"pair-disabled", "", func(ctx sdk.Context) {
 			c.MsgOn(ctx, &erc20types.MsgToggleTokenConversion{Authority: chain.GovAuthority(), Token: x.atomDenom})
@@ -777,10 +798,22 @@ func c18IBC(spec c18Spec, res *core.CaseResult, verbose bool) {
 		if t.prep != nil {
 			t.prep(ctx)
 		}
-		pkt, r := x.loop.Send(ctx, x.remote, a, sdk.NewCoin(t.denom, sdkmath.NewInt(777)), u.Hex().Hex(), t.memo, c.Time.Add(time.Hour))
-		if !r.OK() {
-			res.Inconclusive = "send: " + r.ErrString()
-			return
+		var pkt channeltypes.Packet
+		if t.denom == "fx-return" {
+			// FX coming home: the packet a remote chain would send for vouchers of FX it received over this channel
+			var err error
+			pkt, err = x.rawSend(ctx, a, transfertypes.NewFungibleTokenPacketData(fmt.Sprintf("transfer/%s/%s", a, fxtypes.DefaultDenom), "777", x.remote.Bech32(), u.Hex().Hex(), t.memo), c.Time.Add(time.Hour))
+			if err != nil {
+				res.Inconclusive = "raw send: " + err.Error()
+				return
+			}
+		} else {
+			var r chain.Result
+			pkt, r = x.loop.Send(ctx, x.remote, a, sdk.NewCoin(t.denom, sdkmath.NewInt(777)), u.Hex().Hex(), t.memo, c.Time.Add(time.Hour))
+			if !r.OK() {
+				res.Inconclusive = "send: " + r.ErrString()
+				return
+			}
 		}
 		before := c.Dump(ctx)
 		ack, rr := x.loop.Recv(ctx, pkt)
